@@ -8,8 +8,46 @@ from props import c02lib as lib
 ALLOWED = set("m t f p x s v { ( i ! && || >".split())
 
 
+def sublists(c):
+    """the compound lists directly inside a command"""
+    k = c[0]
+    if k in ("{", "("):
+        return [c[1]]
+    if k == "i":
+        return [c[1], c[2]] + [x for e in c[3] for x in e if x is not None]
+    if k == "w":
+        return [c[2], c[3]]
+    if k == "o":
+        return [c[3]]
+    if k == "a":
+        return [b for _, _, b in c[1] if b is not None]
+    return []
+
+
+def sete_under_bang(l, under=False):
+    """structural class predicate of KF-C03-bang-inner-set-e: some `set -e` leaf lies inside the scope of a `!`-negated
+    pipeline of the list, at any nesting depth (groups, subshells, if conditions and branches, redirected compounds)"""
+    for first, rest in l:
+        for bang, cmds in [first] + [p for _, p in rest]:
+            u = under or bang
+            for c in cmds:
+                while c[0] == ">":
+                    c = c[2]
+                if c == ("s", "e", True) and u:
+                    return True
+                if c[0] == "d":
+                    continue
+                if any(sete_under_bang(sl, u) for sl in sublists(c)):
+                    return True
+    return False
+
+
+def has_sete(l):
+    return sete_under_bang(l, True)
+
+
 def inner_list(rng):
-    """a small command list (markers, probes, statuses, set +-e, if/case/group/subshell, && || !) rendered as text"""
+    """a small command list (markers, probes, statuses, set +-e, if/group/subshell, && || !): (text, list)"""
     for _ in range(50):
         g = sg.Gen(rng, opts=True, scoped=1.0, maxdepth=rng.choice([1, 2, 2, 3]), budget=rng.choice([4, 6, 10]),
                    fail_bias=0.5, pipes=0.0)
@@ -17,8 +55,8 @@ def inner_list(rng):
         if set(sg.kinds([l])) <= ALLOWED:
             text = sg.Render().clist(l)
             if "'" not in text:
-                return text
-    return 'echo m1; false; echo "?=$?"'
+                return text, l
+    return 'echo m1; false; echo "?=$?"', [sg.simple(("m", 1)), sg.simple(("f",)), sg.simple(("p",))]
 
 
 WRAP = [
@@ -42,8 +80,10 @@ CONTEXT = [
 
 
 def gen_one(rng):
+    """-> (script, features, quirk) ; quirk = the program is in the class KF-C03-bang-inner-set-e"""
     lines = []
     feats = []
+    quirk = False
     if rng.random() < 0.5:
         lines.append("shopt -s inherit_errexit")
         feats.append("inherit_errexit")
@@ -51,12 +91,17 @@ def gen_one(rng):
         lines.append("set -e")
         feats.append("outer-e")
     for _ in range(rng.randint(1, 3)):
-        inner = inner_list(rng)
-        if rng.random() < 0.4:
+        inner, ast = inner_list(rng)
+        inner_e = rng.random() < 0.4
+        if inner_e:
             inner = "set -e; " + inner
             feats.append("inner-e")
         wname, wt, after = rng.choice(WRAP)
         cname, ct = rng.choice(CONTEXT)
+        # a `set -e` executed inside the scope of a `!`: within the nested list itself, or anywhere in the nested list when the
+        # whole substitution/eval command is negated
+        if sete_under_bang(ast) or (cname == "not" and (inner_e or has_sete(ast))):
+            quirk = True
         lines.append(ct % (wt % inner))
         lines.append('echo "?=$?"')
         if after:
@@ -65,34 +110,26 @@ def gen_one(rng):
         if rng.random() < 0.15:
             lines.append(rng.choice(["shopt -u inherit_errexit", "shopt -s inherit_errexit", "set +e", "set -e"]))
     lines.append('echo "end ?=$?"')
-    return "\n".join(lines) + "\n", feats
+    return "\n".join(lines) + "\n", feats, quirk
 
 
 def run(ctx, n):
     rng = ctx.rng
     progs = [gen_one(rng) for _ in range(n)]
-    impl = [lib.parse_impl(l) for l in ctx.impl("c02", [[t] for t, _ in progs])]
-    bash = lib.bash_many([t for t, _ in progs])
+    impl = [lib.parse_impl(l) for l in ctx.impl("c02", [[p[0]] for p in progs])]
+    bash = lib.bash_many([p[0] for p in progs])
     specv, feats = [], {}
     agree = 0
-    for (t, fs), r, b in zip(progs, impl, bash):
+    nquirk = 0
+    for (t, fs, quirk), r, b in zip(progs, impl, bash):
+        nquirk += quirk
         for f in fs:
             feats[f] = feats.get(f, 0) + 1
         if lib.code_eq_bash(r, b):
             agree += 1
             continue
         v = {"input": t, "why": "errexit through substitution/eval: brush %r; bash %r" % (r, b)}
-        k = known(t, r, b)
-        if k:
-            v["known"] = k
+        if quirk:
+            v["known"] = "KF-C03-bang-inner-set-e"
         specv.append(v)
-    return specv, {"programs": n, "agree_with_bash": agree, "features": feats}
-
-
-def known(t, r, b):
-    """KF-C03-bang-inner-set-e: a `!`-negated command inside which `set -e` is executed (bash then exits on a failure
-    inside the negated command, against its manual; brush keeps the exemption)"""
-    for line in t.split("\n"):
-        if line.startswith("! ") and "set -e" in line:
-            return "KF-C03-bang-inner-set-e"
-    return None
+    return specv, {"programs": n, "agree_with_bash": agree, "in_class_bang_inner_set_e": nquirk, "features": feats}
